@@ -114,6 +114,13 @@ static Integer pow2(unsigned long e) { Integer r(1); r <<= e; return r; }
 
 static void out(const Args& a, const std::string& res) { vp::emit(a, res); fflush(stdout); }
 
+// pre-filled destinations: a value that is NOT a canonical element (all ones / -1 / a huge integer)
+template <class E> static typename std::enable_if<std::is_arithmetic<E>::value>::type set_junk(E& e) { e = (E)-1; }
+static void set_junk(Integer& e) { e = -(pow2(300) + 7); }
+template <size_t K> static void set_junk(RecInt::ruint<K>& e) { e = toRu<K>(pow2(1u << K) - 1); }
+template <size_t K> static void set_junk(RecInt::rint<K>& e) { e = toRi<K>(Integer(-1)); }
+
+
 // ------------------------------------------------------------------------------------------
 // A. GivRandom
 // ------------------------------------------------------------------------------------------
@@ -147,66 +154,141 @@ static void c_givcopy(const Args& a) {   // givcopy seed k n = eq   (a copy take
     out(a, eq ? "1" : "0");
 }
 
+// givx seed n = d1..dn U x1..xn      g(x) (template operator()(XXX& x)) into pre-filled destinations of types
+//   uint64_t, uint32_t, int32_t, int64_t, double, Integer (cycled); a second generator gives the plain draws d_i: x_i must be d_i
+//   converted to the type.  brand() is (draw & 2^30) == 0.
+static void c_givx(const Args& a) {
+    uint64_t seed = a.W(0); size_t n = a.W(1);
+    Givaro::GivRandom g1(seed), g2(seed);
+    std::string d, x;
+    for (size_t i = 0; i < n; ++i) {
+        uint64_t plain = g2();
+        d += (i ? " " : "") + vp::hex_ull(plain);
+        std::string t;
+        switch (i % 7) {
+            case 0: { uint64_t v = ~0ULL; g1(v); t = vp::hex_ull(v); break; }
+            case 1: { uint32_t v = ~0u; g1(v); t = vp::hex_ull(v); break; }
+            case 2: { int32_t v = -1; g1(v); t = vp::hex_ll(v); break; }
+            case 3: { int64_t v = -1; g1(v); t = vp::hex_ll(v); break; }
+            case 4: { double v = -1.5; g1(v); t = hx(v); break; }
+            case 5: { Integer v; set_junk(v); g1(v); t = hx(v); break; }
+            default: { bool b = g1.brand(); t = b ? "1" : "0"; break; }
+        }
+        x += " " + t;
+    }
+    out(a, d + " U" + x);
+}
+
 // ------------------------------------------------------------------------------------------
 // B. Integer::random* (gmp++_int_rand.inl) and RandomIntegerIterator
 // ------------------------------------------------------------------------------------------
-// all keys: <key> seed pat <args…> = r T <trace>
-static void c_int(const Args& a) {
-    const std::string& k = a.tok[0];
-    uint64_t seed = a.W(0); unsigned long long pat = a.W(1);
-    Integer::seeding((uint64_t)seed);
-    Integer r(0);
-    tr::begin(pat);
+// all keys: <key> seed pat x y old = r T <trace> U r2
+//   The destination `r` is PRE-FILLED with `old` (grid: 0, ±1, multi-limb, negative) before the call; the call is then repeated from the
+//   same generator state (same seed, same substitution pattern) into a destination holding a different value (old2 = -old - 2^67 - 1):
+//   r2 must equal r -- a draw is a function of the generator state and the parameters only, never of what the destination held.
+static Integer other_old(const Integer& old) { return -old - pow2(67) - 1; }
+
+static bool int_op(const std::string& k, const Args& a, Integer& r) {
     if (k == "lt") { bool ap = a.W(2); Integer m = argZ(a, 3); if (ap) Integer::random_lessthan<true>(r, m); else Integer::random_lessthan<false>(r, m); }
     else if (k == "lt0") { Integer m = argZ(a, 3); Integer::random_lessthan(r, m); }      // non-template overload
     else if (k == "lt2") { bool ap = a.W(2); uint64_t n = a.W(3); if (ap) Integer::random_lessthan_2exp<true>(r, n); else Integer::random_lessthan_2exp<false>(r, n); }
+    else if (k == "lt20") { uint64_t n = a.W(3); Integer::random_lessthan_2exp(r, n); }     // non-template overloads
     else if (k == "ltw") { bool ap = a.W(2); uint64_t n = a.W(3); if (ap) Integer::random_lessthan<true>(r, n); else Integer::random_lessthan<false>(r, n); }
+    else if (k == "ltw0") { uint64_t n = a.W(3); Integer::random_lessthan(r, n); }
     else if (k == "ltv") { bool ap = a.W(2); unsigned n = (unsigned)a.W(3); r = ap ? Integer::random_lessthan<true, unsigned>(n) : Integer::random_lessthan<false, unsigned>(n); }  // value-returning, T = unsigned
+    else if (k == "ltv0") { uint64_t n = a.W(3); r = (a.W(2) ? Integer::random_lessthan_2exp(n) : Integer::random_lessthan_2exp<false>(n)); }
+    else if (k == "ltvT") { long n = (long)a.W(3); r = Integer::random_lessthan(n); }       // template<class T> random_lessthan(const T&)
     else if (k == "ex2") { bool ap = a.W(2); uint64_t n = a.W(3); if (ap) Integer::random_exact_2exp<true>(r, n); else Integer::random_exact_2exp<false>(r, n); }
+    else if (k == "ex20") { uint64_t n = a.W(3); Integer::random_exact_2exp(r, n); }        // non-template overload
+    else if (k == "exw") { bool ap = a.W(2); uint64_t n = a.W(3); if (ap) Integer::random_exact(r, n); else Integer::random_exact<false>(r, n); }   // random_exact(r, const uint64_t&)
     else if (k == "exI") { bool ap = a.W(2); Integer s = argZ(a, 3); if (ap) Integer::random_exact<true>(r, s); else Integer::random_exact<false>(r, s); }
+    else if (k == "exI0") { Integer s = argZ(a, 3); Integer::random_exact(r, s); }          // non-template overload
     else if (k == "exT") { bool ap = a.W(2); int n = (int)a.W(3); if (ap) Integer::random_exact(r, n); else Integer::random_exact<false>(r, n); }   // template T = int
     else if (k == "exV") { bool ap = a.W(2); unsigned long n = a.W(3); r = ap ? Integer::random_exact(n) : Integer::random_exact<false>(n); }   // value-returning
+    else if (k == "exVI") { Integer s = argZ(a, 3); r = a.W(2) ? Integer::random_exact(s) : Integer::random_exact<false>(s); }                   // value-returning, Integer size
     else if (k == "btw") { Integer lo = argZ(a, 2), hi = argZ(a, 3); Integer::random_between(r, lo, hi); }
     else if (k == "btwv") { Integer lo = argZ(a, 2), hi = argZ(a, 3); r = Integer::random_between(lo, hi); }
     else if (k == "btw2") { uint64_t m = a.W(2), M = a.W(3); Integer::random_between_2exp(r, m, M); }
+    else if (k == "btw2v") { uint64_t m = a.W(2), M = a.W(3); r = Integer::random_between_2exp(m, M); }
+    else if (k == "btwW") { uint64_t m = a.W(2), M = a.W(3); Integer::random_between(r, m, M); }            // random_between(r, const uint64_t&, const uint64_t&)
     else if (k == "btwT") { int m = (int)a.W(2), M = (int)a.W(3); Integer::random_between(r, m, M); }       // template R = int: exponents
+    else if (k == "btwTv") { int m = (int)a.W(2), M = (int)a.W(3); r = Integer::random_between(m, M); }     // template R = int, value-returning
     else if (k == "btwU") { unsigned long m = a.W(2), M = a.W(3); r = Integer::random_between(m, M); }       // as in tests/test-random.C
     else if (k == "nz") { bool ap = a.W(2); uint64_t n = a.W(3); if (ap) Integer::nonzerorandom<true>(r, n); else Integer::nonzerorandom<false>(r, n); }
+    else if (k == "nzT") { unsigned long n = a.W(3); Integer::nonzerorandom(r, n); }        // template<class T> nonzerorandom(r, const T&)
     else if (k == "nzv") { bool ap = a.W(2); unsigned long n = a.W(3); r = ap ? Integer::nonzerorandom(n) : Integer::nonzerorandom<false>(n); }
     else if (k == "nzI") { bool ap = a.W(2); Integer m = argZ(a, 3); if (ap) Integer::nonzerorandom<true>(r, m); else Integer::nonzerorandom<false>(r, m); }
+    else if (k == "nzIv") { Integer m = argZ(a, 3); r = a.W(2) ? Integer::nonzerorandom(m) : Integer::nonzerorandom<false>(m); }
     else if (k == "rndI") { bool ap = a.W(2); Integer m = argZ(a, 3); if (ap) Integer::random<true>(r, m); else Integer::random<false>(r, m); }
+    else if (k == "rndIT") { Integer m = argZ(a, 3); Integer::random(r, m); }               // template<class T> random(r, const T&)
+    else if (k == "rndIv") { Integer m = argZ(a, 3); r = a.W(2) ? Integer::random(m) : Integer::random<false>(m); }
     else if (k == "rndW") { bool ap = a.W(2); long n = (long)a.W(3); if (ap) Integer::random<true>(r, n); else Integer::random<false>(r, n); }   // T = long: bits
+    else if (k == "rndWv") { int n = (int)a.W(3); r = a.W(2) ? Integer::random(n) : Integer::random<false>(n); }
     else if (k == "rnd0") { bool ap = a.W(2); r = ap ? Integer::random() : Integer::random<false>(); }
+    else if (k == "rnd0t") { r = Integer::random<true>(); }
     else if (k == "nz0") { r = Integer::nonzerorandom(); }
     else if (k == "rbool") { r = Integer::RandBool() ? 1 : 0; }
-    else { tr::end(); out(a, "BADKEY"); return; }
-    tr::end();
-    out(a, hx(r) + " T" + tr::log);
+    // the same draws through the domain object ZRing<Integer> (givinteger.h): random(g, r, long s) / random(g, r, const Rep& b) ignore g
+    else if (k == "zrW") { Givaro::ZRing<Integer> Z; Givaro::GivRandom g(1); if (a.W(2)) Z.random(g, r, (long)a.W(3)); else Z.nonzerorandom(g, r, (long)a.W(3)); }
+    else if (k == "zrI") { Givaro::ZRing<Integer> Z; Givaro::GivRandom g(1); Integer b = argZ(a, 3); if (a.W(2)) Z.random(g, r, b); else Z.nonzerorandom(g, r, b); }
+    else return false;
+    return true;
 }
 
-// rii seed pat uns exact how bits k = v1..vk T trace
-//   how = 0: RandomIntegerIterator(D, seed) then setBitsize(bits); how = 1: RandomIntegerIterator(D, seed, samplesize = 2^bits - 1 ... ) see below
+static void c_int(const Args& a) {
+    const std::string& k = a.tok[0];
+    uint64_t seed = a.W(0); unsigned long long pat = a.W(1);
+    Integer old = a.n() > 4 ? argZ(a, 4) : Integer(0);
+    Integer r1(old), r2(other_old(old));
+    Integer::seeding((uint64_t)seed);
+    tr::begin(pat);
+    bool ok = int_op(k, a, r1);
+    tr::end();
+    if (!ok) { out(a, "BADKEY"); return; }
+    std::string log1 = tr::log;
+    Integer::seeding((uint64_t)seed);
+    tr::begin(pat);
+    int_op(k, a, r2);
+    tr::end();
+    out(a, hx(r1) + " T" + log1 + " U " + hx(r2));
+}
+
+// rii seed pat uns exact how bits k old = v1..vk T trace U w1..wk
+//   how = 0: RandomIntegerIterator(D, seed) then setBitsize(bits); how = 1: RandomIntegerIterator(D, seed, samplesize)
+//   first sequence: one iterator, values drawn with random(v) into a destination pre-filled with `old` (how 0) or read after ++ (how 1);
+//   second sequence: same seed and pattern, the iterator is COPIED after k/2 values (copy constructor, then copy assignment) and the copy
+//   continues, destinations pre-filled with another value: it must be the same sequence.
 template <bool U, bool E>
 static void rii_run(const Args& a) {
+    typedef Givaro::RandomIntegerIterator<U, E> It;
     uint64_t seed = a.W(0); unsigned long long pat = a.W(1);
     int how = (int)a.W(4); size_t k = a.W(6);
+    Integer old = a.n() > 7 ? argZ(a, 7) : Integer(0);
     Givaro::ZRing<Integer> Z;
-    std::string r;
-    tr::begin(pat);
-    if (how == 0) {
-        size_t bits = a.W(5);
-        Givaro::RandomIntegerIterator<U, E> it(Z, seed);
-        it.setBitsize(bits);
-        r += hx(*it);                                   // the value generated by setBitsize
-        for (size_t i = 1; i < k; ++i) { Integer v; it.random(v); r += " " + hx(v); }
-    } else {
-        Integer ss = argZ(a, 5);
-        Givaro::RandomIntegerIterator<U, E> it(Z, seed, ss);
-        r += hx(*it);
-        for (size_t i = 1; i < k; ++i) { ++it; r += " " + hx(it.randomInteger()); }
+    std::string r[2], log1;
+    for (int rep = 0; rep < 2; ++rep) {
+        Integer fill = rep ? other_old(old) : old;
+        It spare(Z, 777);                               // assignment target, built before the generator is (re)seeded by `it`
+        tr::begin(pat);
+        It* it = (how == 0) ? new It(Z, seed) : new It(Z, seed, argZ(a, 5));
+        if (how == 0) it->setBitsize((size_t)a.W(5));
+        r[rep] += hx(**it);                             // the value generated by the constructor / by setBitsize
+        It* cur = it;
+        for (size_t i = 1; i < k; ++i) {
+            if (rep == 1 && i == k / 2) {               // continue with a copy: copy constructor, then copy assignment
+                It c(*it);
+                spare = c;
+                cur = &spare;
+            }
+            if (how == 0 && (i % 2)) { Integer v(fill); cur->random(v); r[rep] += " " + hx(v); }
+            else if (how == 0) { Integer v(fill); (*cur)(v); r[rep] += " " + hx(v); }
+            else { ++*cur; r[rep] += " " + hx(cur->randomInteger()); }
+        }
+        delete it;
+        tr::end();
+        if (rep == 0) log1 = tr::log;
     }
-    tr::end();
-    out(a, r + " T" + tr::log);
+    out(a, r[0] + " T" + log1 + " U " + r[1]);
 }
 static void c_rii(const Args& a) {
     bool u = a.W(2), e = a.W(3);
@@ -252,6 +334,10 @@ static void c_seedrep(const Args& a) {
 //      7  F.nonzerorandom(g, e, size)
 enum Caps { C_SIZE = 1, C_GEN = 2 };   // C_SIZE: has random(g, e, size); C_GEN: init(e, uint64_t) exists (GeneralRingRandIter)
 
+// two sequences from the same seed:
+//   rep 0: every draw goes into a destination pre-filled with a non-canonical value;
+//   rep 1: destinations hold zero, and the iterator / generator is COPIED after n/2 draws (copy constructor) and the copy continues.
+// eq = 1 iff the two sequences agree: a draw depends on the seed, the construction parameters and the number of earlier draws only.
 template <class Ring, int CAPS>
 static void ring_fn(const Args& a, const Ring& F) {
     typedef typename Ring::Element E;
@@ -261,41 +347,55 @@ static void ring_fn(const Args& a, const Ring& F) {
     bool ran = true;
     for (int rep = 0; rep < 2; ++rep) {
         std::vector<E>& v = s[rep];
+        auto fresh = [&](E& e) { if (rep == 0) set_junk(e); else F.init(e); };
+        size_t half = rep ? n / 2 : n;                  // rep 1 switches to a copy after `half` draws
         if (fn == 0) {
             typename Ring::RandIter it(F, seed);
-            for (size_t i = 0; i < n; ++i) { E e; F.init(e); it.random(e); v.push_back(e); }
+            for (size_t i = 0; i < half; ++i) { E e; fresh(e); if (i % 2) it.random(e); else it(e); v.push_back(e); }
+            typename Ring::RandIter c(it);
+            if constexpr (std::is_copy_assignable<typename Ring::RandIter>::value) {
+                if (seed & 1) { typename Ring::RandIter d(F, seed + 977); d = c; c = d; }        // copy assignment (both directions)
+            }
+            for (size_t i = half; i < n; ++i) { E e; fresh(e); if (i % 2) c.random(e); else c(e); v.push_back(e); }
         } else if (fn == 3) {
             typename Ring::RandIter it(F, seed);
             Givaro::GeneralRingNonZeroRandIter<Ring, typename Ring::RandIter> nz(it);
-            for (size_t i = 0; i < n; ++i) { E e; F.init(e); nz.random(e); v.push_back(e); }
-        } else if (fn == 4) {
+            for (size_t i = 0; i < half; ++i) { E e; fresh(e); if (i % 2) nz.random(e); else nz(e); v.push_back(e); }
+            Givaro::GeneralRingNonZeroRandIter<Ring, typename Ring::RandIter> c(nz);
+            for (size_t i = half; i < n; ++i) { E e; fresh(e); c.random(e); v.push_back(e); }
+        } else if (fn == 4 || fn == 5) {
             Givaro::GivRandom g(seed);
-            for (size_t i = 0; i < n; ++i) { E e; F.init(e); F.random(g, e); v.push_back(e); }
-        } else if (fn == 5) {
-            Givaro::GivRandom g(seed);
-            for (size_t i = 0; i < n; ++i) { E e; F.init(e); F.nonzerorandom(g, e); v.push_back(e); }
+            for (size_t i = 0; i < half; ++i) { E e; fresh(e); if (fn == 4) F.random(g, e); else F.nonzerorandom(g, e); v.push_back(e); }
+            Givaro::GivRandom c(g);
+            for (size_t i = half; i < n; ++i) { E e; fresh(e); if (fn == 4) F.random(c, e); else F.nonzerorandom(c, e); v.push_back(e); }
         } else if constexpr ((CAPS & C_SIZE) != 0) {
             Res_t size = (Res_t)a.W(5);
             if (fn == 1) {
                 Givaro::GIV_randIter<Ring, E> it(F, seed, size);
-                for (size_t i = 0; i < n; ++i) { E e; F.init(e); it.random(e); v.push_back(e); }
-            } else if (fn == 6) {
+                for (size_t i = 0; i < half; ++i) { E e; fresh(e); if (i % 2) it.random(e); else it(e); v.push_back(e); }
+                Givaro::GIV_randIter<Ring, E> c(it);
+                if (seed & 1) { Givaro::GIV_randIter<Ring, E> d(F, seed + 977, size); d = c; c = d; }   // copy assignment
+                for (size_t i = half; i < n; ++i) { E e; fresh(e); c.random(e); v.push_back(e); }
+            } else if (fn == 6 || fn == 7) {
                 Givaro::GivRandom g(seed);
-                for (size_t i = 0; i < n; ++i) { E e; F.init(e); F.random(g, e, size); v.push_back(e); }
-            } else if (fn == 7) {
-                Givaro::GivRandom g(seed);
-                for (size_t i = 0; i < n; ++i) { E e; F.init(e); F.nonzerorandom(g, e, size); v.push_back(e); }
+                for (size_t i = 0; i < half; ++i) { E e; fresh(e); if (fn == 6) F.random(g, e, size); else F.nonzerorandom(g, e, size); v.push_back(e); }
+                Givaro::GivRandom c(1); c = g;          // copy assignment
+                for (size_t i = half; i < n; ++i) { E e; fresh(e); if (fn == 6) F.random(c, e, size); else F.nonzerorandom(c, e, size); v.push_back(e); }
             } else if (fn == 2) {
                 if constexpr ((CAPS & C_GEN) != 0) {
                     Givaro::GeneralRingRandIter<Ring> it(F, seed, size);
-                    for (size_t i = 0; i < n; ++i) { E e; F.init(e); it.random(e); v.push_back(e); }
+                    for (size_t i = 0; i < half; ++i) { E e; fresh(e); if (i % 2) it.random(e); else it(e); v.push_back(e); }
+                    Givaro::GeneralRingRandIter<Ring> c(it);
+                    for (size_t i = half; i < n; ++i) { E e; fresh(e); c.random(e); v.push_back(e); }
                 } else ran = false;
             } else ran = false;
         } else if constexpr ((CAPS & C_GEN) != 0) {
             if (fn == 2) {
                 Res_t size = (Res_t)a.W(5);
                 Givaro::GeneralRingRandIter<Ring> it(F, seed, size);
-                for (size_t i = 0; i < n; ++i) { E e; F.init(e); it.random(e); v.push_back(e); }
+                for (size_t i = 0; i < half; ++i) { E e; fresh(e); if (i % 2) it.random(e); else it(e); v.push_back(e); }
+                Givaro::GeneralRingRandIter<Ring> c(it);
+                for (size_t i = half; i < n; ++i) { E e; fresh(e); c.random(e); v.push_back(e); }
             } else ran = false;
         } else ran = false;
     }
@@ -304,6 +404,7 @@ static void ring_fn(const Args& a, const Ring& F) {
     for (size_t i = 0; i < n; ++i) if (!(s[0][i] == s[1][i])) eq = 0;
     std::string r = eq ? "1" : "0";
     for (size_t i = 0; i < n; ++i) r += " " + hx(s[0][i]);
+    if (!eq) { r += " U"; for (size_t i = 0; i < n; ++i) r += " " + hx(s[1][i]); }
     out(a, r);
 }
 
@@ -358,23 +459,30 @@ static void poly_run(const Args& a, const Dom& F) {
     typedef Givaro::Poly1Dom<Dom, Givaro::Dense> PD;
     PD D(F, Givaro::Indeter("X"));
     uint64_t seed = a.W(3); int kind = (int)a.W(4); long arg = (long)a.SW(5);
-    Givaro::GivRandom g(seed);
-    typename PD::Element P, B;
-    // the destination is either fresh or (odd seeds) already holds a LONGER polynomial: what it held must not show in the draw
-    if (seed & 1) P.assign((size_t)((arg > 0 ? arg : 0) + 9), F.one);
-    switch (kind) {
-        case 0: D.random(g, P, Givaro::Degree(arg)); break;
-        case 1: D.random(g, P, (uint64_t)arg); break;
-        case 2: D.random(g, P); break;
-        case 3: B.resize((size_t)arg); D.random(g, P, B); break;
-        case 4: D.nonzerorandom(g, P, Givaro::Degree(arg)); break;
-        case 5: D.nonzerorandom(g, P, (uint64_t)arg); break;
-        case 6: D.nonzerorandom(g, P); break;
-        case 7: B.resize((size_t)arg); D.nonzerorandom(g, P, B); break;
-        default: out(a, "BADKIND"); return;
+    // three draws from the same seed into destinations that hold (0) a LONGER polynomial of ones, (1) nothing, (2) a shorter
+    // non-canonical one: what the destination held must not show in the draw.  Printed: draw 0, then after U draws 1 and 2.
+    std::string r;
+    for (int rep = 0; rep < 3; ++rep) {
+        Givaro::GivRandom g(seed);
+        typename PD::Element P, B;
+        if (rep == 0) P.assign((size_t)((arg > 0 ? arg : 0) + 9), F.one);
+        else if (rep == 2) { P.resize(1); set_junk(P[0]); }
+        switch (kind) {
+            case 0: D.random(g, P, Givaro::Degree(arg)); break;
+            case 1: D.random(g, P, (uint64_t)arg); break;
+            case 2: D.random(g, P); break;
+            case 3: B.resize((size_t)arg); D.random(g, P, B); break;
+            case 4: D.nonzerorandom(g, P, Givaro::Degree(arg)); break;
+            case 5: D.nonzerorandom(g, P, (uint64_t)arg); break;
+            case 6: D.nonzerorandom(g, P); break;
+            case 7: B.resize((size_t)arg); D.nonzerorandom(g, P, B); break;
+            default: out(a, "BADKIND"); return;
+        }
+        if (rep == 1) r += " U";
+        if (rep == 2) r += " U";
+        r += (rep ? " " : "") + vp::hex_ull(P.size());
+        for (size_t i = 0; i < P.size(); ++i) r += " " + hx(P[i]);
     }
-    std::string r = vp::hex_ull(P.size());
-    for (size_t i = 0; i < P.size(); ++i) r += " " + hx(P[i]);
     out(a, r);
 }
 static void c_poly(const Args& a) {
@@ -393,10 +501,29 @@ template <size_t K> static void ru_run(const Args& a) {
     RecInt::srand(seed);
     std::mt19937_64 copy = RecInt::rand_gen;
     std::string r;
-    for (size_t i = 0; i < n; ++i) { RecInt::ruint<K> v; RecInt::rand(v); r += (i ? " " : ""); r += hx(v); }
+    // destinations pre-filled with all ones; then (after U) the same seed into zeroed destinations
+    for (size_t i = 0; i < n; ++i) { RecInt::ruint<K> v; set_junk(v); RecInt::rand(v); r += (i ? " " : ""); r += hx(v); }
     r += " T";
     size_t words = n * ((size_t)1 << (K - 6));
     for (size_t i = 0; i < words; ++i) r += " " + vp::hex_ull(copy());
+    r += " U";
+    RecInt::srand(seed);
+    for (size_t i = 0; i < n; ++i) { RecInt::ruint<K> v(0); RecInt::rand(v); r += " " + hx(v); }
+    out(a, r);
+}
+// ri K seed n = v1..vn T words U v1'..vn'     rand(rint<K>&): the same bits, read as a signed number
+template <size_t K> static void ri_run(const Args& a) {
+    uint64_t seed = a.W(1); size_t n = a.W(2);
+    RecInt::srand(seed);
+    std::mt19937_64 copy = RecInt::rand_gen;
+    std::string r;
+    for (size_t i = 0; i < n; ++i) { RecInt::rint<K> v; set_junk(v); RecInt::rand(v); r += (i ? " " : ""); r += hx(v); }
+    r += " T";
+    size_t words = n * ((size_t)1 << (K - 6));
+    for (size_t i = 0; i < words; ++i) r += " " + vp::hex_ull(copy());
+    r += " U";
+    RecInt::srand(seed);
+    for (size_t i = 0; i < n; ++i) { RecInt::rint<K> v(0); RecInt::rand(v); r += " " + hx(v); }
     out(a, r);
 }
 // rm K mg p seed n = v1..vn T words       (v: the stored residue a.Value after rand(a))
@@ -407,10 +534,13 @@ template <size_t K, size_t MG> static void rm_run(const Args& a) {
     RecInt::srand(seed);
     std::mt19937_64 copy = RecInt::rand_gen;
     std::string r;
-    for (size_t i = 0; i < n; ++i) { RecInt::rmint<K, MG> v; RecInt::rand(v); r += (i ? " " : ""); r += hx(v.Value); }
+    for (size_t i = 0; i < n; ++i) { RecInt::rmint<K, MG> v; set_junk(v.Value); if (i % 2) RecInt::rand(v); else v.random(); r += (i ? " " : ""); r += hx(v.Value); }
     r += " T";
     size_t words = n * ((size_t)1 << (K - 6));
     for (size_t i = 0; i < words; ++i) r += " " + vp::hex_ull(copy());
+    r += " U";
+    RecInt::srand(seed);
+    for (size_t i = 0; i < n; ++i) { RecInt::rmint<K, MG> v; v.Value = 0; RecInt::rand(v); r += " " + hx(v.Value); }
     out(a, r);
 }
 // rurep K seed n = eq       srand(seed) twice gives the same sequence
@@ -427,6 +557,11 @@ static void c_ru(const Args& a) {
     switch (a.W(0)) {
         case 6: ru_run<6>(a); break; case 7: ru_run<7>(a); break; case 8: ru_run<8>(a); break;
         case 9: ru_run<9>(a); break; case 10: ru_run<10>(a); break; default: out(a, "BADK");
+    }
+}
+static void c_ri(const Args& a) {
+    switch (a.W(0)) {
+        case 6: ri_run<6>(a); break; case 7: ri_run<7>(a); break; case 8: ri_run<8>(a); break; default: out(a, "BADK");
     }
 }
 static void c_rurep(const Args& a) {
@@ -460,6 +595,8 @@ static void run_case(const Args& a) {
     if (k == "giv") c_giv(a);
     else if (k == "givlong") c_givlong(a);
     else if (k == "givcopy") c_givcopy(a);
+    else if (k == "givx") c_givx(a);
+    else if (k == "ri") c_ri(a);
     else if (k == "rii") c_rii(a);
     else if (k == "seedrep") c_seedrep(a);
     else if (k == "ring") c_ring(a);
@@ -503,7 +640,12 @@ struct Gen {
                                    1ULL << 32, (1ULL << 32) + 1, 9701ULL * 1000003ULL, 9702000000ULL, 9702500000ULL, M * M, M * 4294967298ULL, 1ULL << 33, 1ULL << 53,
                                    (1ULL << 62) - 1, 1ULL << 62, (1ULL << 63) - 1, 1ULL << 63, (1ULL << 63) + 1, ~0ULL - 1, ~0ULL,
                                    M * 1000ULL, M * (1ULL << 32), 0x8000000000000000ULL / 950706376ULL, 0x8000000000000000ULL / 950706376ULL + 1,
-                                   12345678901234567ULL, 0xDEADBEEFCAFEBABEULL};
+                                   12345678901234567ULL, 0xDEADBEEFCAFEBABEULL,
+                                   // seed normalisation grid: x -> 1 + (x-1) mod (M-1); multiples of M and of M-1, their neighbours, the largest ones
+                                   // below 2^64, and negative numbers handed over as signed (-1, -M, -(M-1), INT64_MIN +- 1)
+                                   2 * (M - 1), 2 * (M - 1) + 1, 2 * (M - 1) + 2, 3 * (M - 1) + 1, (M - 1) << 32, ((M - 1) << 32) + 1,
+                                   (~0ULL / M) * M, (~0ULL / M) * M - 1, (~0ULL / M) * M + 1, (~0ULL / (M - 1)) * (M - 1), (~0ULL / (M - 1)) * (M - 1) + 1,
+                                   0ULL - M, 0ULL - (M - 1), 0ULL - 2 * M, (1ULL << 63) - M, (1ULL << 63) + M, (1ULL << 63) + 2, 0x8000000000000001ULL};
         size_t extra = thorough ? 200 : 24;
         for (size_t i = 0; i < extra; ++i) {
             uint64_t x = rng.next();
@@ -518,8 +660,9 @@ struct Gen {
         for (uint64_t s : ss) {
             add("giv " + H(s) + " " + H(24));
             add("givcopy " + H(s) + " " + H(rng.below(9)) + " " + H(16));
+            add("givx " + H(s) + " " + H(21));
         }
-        size_t nl = thorough ? ss.size() : 12;
+        size_t nl = thorough ? 48 : 12;
         for (size_t i = 0; i < nl && i < ss.size(); ++i) add("givlong " + H(ss[(i * 5) % ss.size()]) + " " + H(thorough ? 100000 : 10000));
         add("givlong 1 " + H(thorough ? 3000000 : 200000));
         add("givlong " + H(rng.next() % 2147483646ULL + 1) + " " + H(thorough ? 1000000 : 100000));
@@ -548,13 +691,26 @@ struct Gen {
     uint64_t sd() { return rng.next() >> rng.below(40); }
 
     void gen_int() {
+        size_t first_line = L.size();
+        gen_int_lines();
+        // every line gets the previous content of the destination as a last argument (the draw must not depend on it)
+        std::vector<Integer> olds = {Integer(0), Integer(1), Integer(-1), pow2(64), -(pow2(130) + 12345), pow2(300) + pow2(64) + 3, -pow2(63), pow2(1000) - 1};
+        for (size_t i = first_line; i < L.size(); ++i) {
+            if (L[i].compare(0, 7, "seedrep") == 0) continue;
+            L[i] += " " + HZ(olds[(i * 7 + i / 8) % olds.size()]);
+        }
+    }
+    void gen_int_lines() {
         std::vector<Integer> bs = bounds();
         std::vector<uint64_t> bits = bit_sizes();
         size_t np = thorough ? 27 : 9;
         const unsigned long long fewpat[] = {0, 1, 2, 4, 5, 7, 8, 13, 26, 40, 80, 121, 242, 364, 728};
         auto pats = [&](size_t i) -> std::vector<unsigned long long> {
             std::vector<unsigned long long> p;
-            if (thorough) { for (unsigned long long c = 0; c < 81; ++c) p.push_back(c); p.push_back(121); p.push_back(242); p.push_back(364); p.push_back(728); p.push_back(1093); }
+            if (thorough) {     // every sequence over {real, min, max} of length <= 3, and selected ones of length 4 .. 7
+                for (unsigned long long c = 0; c < 27; ++c) p.push_back(c);
+                for (unsigned long long c : {28ULL, 31ULL, 40ULL, 41ULL, 53ULL, 54ULL, 67ULL, 79ULL, 80ULL, 121ULL, 161ULL, 242ULL, 364ULL, 728ULL, 1093ULL, 2186ULL}) p.push_back(c);
+            }
             else { for (size_t j = 0; j < np; ++j) p.push_back(fewpat[(i + j * 2) % 15]); p.push_back(0); }
             return p;
         };
@@ -567,6 +723,11 @@ struct Gen {
                 if (m >= 2) add("nzI" + hd);
                 add("exI" + hd);
                 add("exI " + H(sd()) + " " + H(pt) + " " + H(ap) + " -" + HZ(m));
+                if (pt < 3 || pt == 13) {       // the remaining overloads that reach the same code (fewer substitution patterns)
+                    add("rndIv" + hd); add("exVI" + hd);
+                    if (m >= 2) { add("nzIv" + hd); add("zrI" + hd); }
+                    if (ap) { add("rndIT" + hd); add("exI0" + hd); add("zrI" + hd); }
+                }
             }
             add("lt0 " + H(sd()) + " " + H(ci % 3) + " 1 " + HZ(m));
         }
@@ -576,12 +737,17 @@ struct Gen {
             for (unsigned long long pt : pats(ci++)) for (int ap = 0; ap < 2; ++ap) {
                 std::string hd = " " + H(sd()) + " " + H(pt) + " " + H(ap) + " " + H(n);
                 add("lt2" + hd); add("ltw" + hd); add("ltv" + hd); add("ex2" + hd); add("exT" + hd); add("exV" + hd); add("nz" + hd); add("nzv" + hd); add("rndW" + hd);
+                if (pt < 3 || pt == 13) {
+                    add("ltv0" + hd); add("exw" + hd); add("rndWv" + hd); add("zrW" + hd);
+                    if (ap) { add("lt20" + hd); add("ltw0" + hd); add("ltvT" + hd); add("ex20" + hd); add("nzT" + hd); }
+                }
             }
         }
         for (int ap = 0; ap < 2; ++ap) for (unsigned long long pt : pats(ci++)) {
             add("lt2 " + H(sd()) + " " + H(pt) + " " + H(ap) + " 0");     // 0 bits: the only value is 0
             add("rnd0 " + H(sd()) + " " + H(pt) + " " + H(ap) + " 0");
             add("nz0 " + H(sd()) + " " + H(pt) + " 1 0");
+            add("rnd0t " + H(sd()) + " " + H(pt) + " 1 0");
             add("rbool " + H(sd()) + " " + H(pt) + " 1 0");
         }
         // between: lo < hi, both signs, width 1, word boundaries, multi-limb
@@ -603,6 +769,7 @@ struct Gen {
         for (auto& e : ex) for (unsigned long long pt : pats(ci++)) {
             std::string hd = " " + H(sd()) + " " + H(pt) + " " + H(e.first) + " " + H(e.second);
             add("btw2" + hd); add("btwT" + hd); add("btwU" + hd);
+            if (pt < 3 || pt == 13) { add("btw2v" + hd); add("btwW" + hd); add("btwTv" + hd); }
         }
         // RandomIntegerIterator
         for (uint64_t n : bits) for (int u = 0; u < 2; ++u) for (int e = 0; e < 2; ++e) {
@@ -695,7 +862,6 @@ struct Gen {
                 if (T != 0x18 && p >= pow2(127)) continue;
                 if (T == 0x1c && p >= pow2(63)) continue;          // signed storage: half the bits (maxCardinality of Modular<rint<7>>)
                 for (int fn : {0, 3, 4, 5}) {
-                    if (T == 0x18 && fn == 3) continue;          // its RandIter is not const-callable through the wrapper
                     add("ring " + H(T) + " " + HZ(p) + " 1 " + H(gseed(fn == 0 || fn == 4)) + " " + H(fn) + " 0 " + H(n));
                 }
             }
@@ -735,15 +901,17 @@ struct Gen {
             add("poly 20 " + H(p) + " 1 " + H(gseed()) + " 3 0");
         }
         std::vector<std::pair<uint64_t, uint64_t>> pk = {{2, 1}, {2, 4}, {3, 3}, {5, 2}, {101, 1}};
-        for (auto& e : pk) for (long d : {0L, 1L, 2L, 9L, 40L}) for (int kind : {0, 1, 3, 4}) {
+        for (auto& e : pk) for (long d : {0L, 1L, 2L, 9L, 40L}) for (int kind : {0, 1, 3, 4, 5, 7}) {
             long arg = (kind % 4 == 0) ? d : d + 1;
             add("poly 20 " + H(e.first) + " " + H(e.second) + " " + H(gseed()) + " " + H(kind) + " " + H(arg));
         }
+        for (auto& e : pk) for (int kind : {2, 6}) add("poly 20 " + H(e.first) + " " + H(e.second) + " " + H(gseed()) + " " + H(kind) + " 0");
     }
     void gen_recint() {
         size_t n = thorough ? 200 : 24;
         for (unsigned K : {6u, 7u, 8u, 9u, 10u}) for (uint64_t s : {(uint64_t)0, (uint64_t)1, (uint64_t)5489, (uint64_t)rng.next(), (uint64_t)~0ULL}) {
             add("ru " + H(K) + " " + H(s) + " " + H(n));
+            if (K <= 8) add("ri " + H(K) + " " + H(s) + " " + H(n));
             if (K <= 9) add("rurep " + H(K) + " " + H(s) + " " + H(n));
         }
         for (unsigned K : {6u, 7u, 8u}) for (unsigned mg : {0u, 1u}) {
